@@ -137,6 +137,8 @@ def run(tier, seed, build):
                     [[rat(0), rat(1), rat(0), rat(0)], [rat(0), rat(0), rat(0), rat(1)]],
                     [[rat(0), rat(1), rat(0), rat(1)], [rat(0), rat(1), rat(0), rat(0)]]]
         N = [-1.0, -0.5, 0.0]
+        if 3 * pe["m"] * pe["n"] < 16:
+            continue          # too few active amplitudes for the four eigenpairs requested (the wrappers' limits are C05/C06's subject)
         la, oa = eig_lists(pe, N)
         lb_, ob = eig_lists(swap_pd(pe), [N[1], N[0], N[2]])
         lc, oc = eig_lists(scale_pd(pe, s, e, q), N)
